@@ -268,7 +268,52 @@ def child_min(pk, rng, n, R, ktmon, work):
             R.sample({"seq": short(s), "w": w, "m": m, "runs": len(got)})
 
 
+def attribute_probe(pk, R):
+    """Any data attribute the classes expose to Python and accept assignments to must leave the object
+    consistent: afterwards it behaves like before or like a freshly built object with that parameter -
+    and never takes the interpreter down (the unchecked tables are sized in the constructor)."""
+    seq = "ACGTTGCAAGGCTTAACGTACGATCGATCGGGATATCCGTA" * 3
+    specs = [
+        ("OligoComputer", lambda v=2: pk.OligoComputer(v), lambda o: list(o.vectorise_one(seq, False))),
+        ("CgrComputer", lambda v=4: pk.CgrComputer(v), lambda o: [tuple(p) for p in o.vectorise_one("ACGTAC")]),
+        ("KmerGenerator", lambda v=3: pk.KmerGenerator(seq, v), lambda o: [tuple(x) for x in o]),
+        ("MinimiserGenerator", lambda v=3: pk.MinimiserGenerator(seq, 9, v), lambda o: [tuple(x) for x in o]),
+    ]
+    for cname, make, run in specs:
+        probe = make()
+        for name in dir(probe):
+            if name.startswith("_"):
+                continue
+            try:
+                val = getattr(probe, name)
+            except BaseException:  # noqa: BLE001
+                continue
+            if callable(val) or not isinstance(val, int) or isinstance(val, bool):
+                continue
+            for newv in (val + 4, 6, 1):
+                o = make()
+                try:
+                    setattr(o, name, newv)
+                except (AttributeError, TypeError):
+                    break  # read-only: nothing to check
+                R.case(True, ("attr", cname, name, newv))
+                R.cls("writable-attribute-probed")
+                case = {"class": cname, "attribute": name, "assigned": newv}
+                try:
+                    got = run(o)
+                except BaseException as e:  # noqa: BLE001
+                    got = ("exception", type(e).__name__)
+                acceptable = [run(make())]
+                try:
+                    acceptable.append(run(make(newv)))
+                except BaseException:  # noqa: BLE001
+                    pass
+                if got not in acceptable and not (isinstance(got, tuple) and got and got[0] == "exception"):
+                    R.violate("py.attribute.inconsistent", "%s.%s = %r leaves the object computing something that matches neither the old nor a fresh object" % (cname, name, newv), case)
+
+
 def child_oligo(pk, rng, n, R, ktmon, work):
+    attribute_probe(pk, R)
     cases = []
     for i in range(n):
         cls, s = (gen_string(rng, 300) if i % 6 else directed_special(rng, 200)) if i % 11 else directed_affix(rng, 200)
